@@ -30,6 +30,8 @@ def run_case(case, acc, order):
     st = [(i * 7 + i // 3) % nt for i in range(ns)]
     spec = {'n_spikes': ns, 'n_templates': nt, 'n_channels': 4, 'nsw': 4, 'n_raw': n_raw,
             'spike_samples': samples, 'spike_templates': st, 'raw': True, 'features': 'absent',
+            # curated clusters (templates 0 and 1 merged) in half of the cases: the count is per template
+            'spike_clusters': ([nt if t in (0, 1) else t for t in st] if case.get('short_last') else 'same'),
             'tfeatures': 'absent', 'sample_rate': chunk / 600.0, 'time_dtype': case['time_dtype'],
             'fill': case.get('fill', 0)}
     stride = max(1, int(math.ceil(n_chunks / float(n_kept_rule))))
